@@ -16,6 +16,7 @@ pub struct SigRow {
     pub ret_lts: Vec<String>,     // lifetimes mentioned in the return type ("_" = elided/anonymous)
     pub outlives: Vec<(String, String)>, // declared bounds 'a: 'b (a outlives b), of the method and its impl
     pub q_sized: bool,            // a lookup-key parameter `Q` is declared without `?Sized`
+    pub key_lts: Vec<String>,     // named lifetimes carried by the parameters that are neither `self` nor a guard
     pub ret: String,
     pub returns_borrow: bool,
     pub has_static_bound: bool,
@@ -180,6 +181,7 @@ pub fn scan(file: &syn::File, fname: &str, types: &[&str]) -> (Vec<SigRow>, Vec<
         // signature lifetimes
         let mut self_lt = String::new();
         let mut guard_lts = Vec::new();
+        let mut key_lts: Vec<String> = Vec::new();
         for a in &f.sig.inputs {
             match a {
                 syn::FnArg::Receiver(r) => {
@@ -195,6 +197,10 @@ pub fn scan(file: &syn::File, fname: &str, types: &[&str]) -> (Vec<SigRow>, Vec<
                         if let syn::Type::Reference(r) = &*t.ty {
                             guard_lts.push(r.lifetime.as_ref().map(|l| l.ident.to_string()).unwrap_or("_".into()));
                         }
+                    } else {
+                        let mut v = Lts(vec![], false);
+                        v.visit_type(&t.ty);
+                        key_lts.extend(v.0.into_iter().filter(|l| l != "_"));
                     }
                 }
             }
@@ -216,6 +222,7 @@ pub fn scan(file: &syn::File, fname: &str, types: &[&str]) -> (Vec<SigRow>, Vec<
         let (qd2, qr2) = maybe_sized(&f.sig.generics, "Q");
         sigs.push(SigRow {
             q_sized: (qd1 || qd2) && !(qr1 || qr2),
+            key_lts,
             outlives,
             file: fname.into(),
             ty,
@@ -278,7 +285,7 @@ pub fn sig_coq(rows: &[SigRow]) -> String {
          From Coq Require Import List String NArith.\nImport ListNotations.\nOpen Scope string_scope.\n\n\
          Record sigrow := { g_file : string; g_ty : string; g_trait : string; g_name : string; g_line : N;\n\
          \x20 g_self : string; g_guards : list string; g_ret_lts : list string;\n\
-         \x20 g_outlives : list (string * string); g_q_sized : bool; g_ret : string;\n\
+         \x20 g_outlives : list (string * string); g_q_sized : bool; g_key_lts : list string; g_ret : string;\n\
          \x20 g_borrow : bool; g_static : bool }.\n\nDefinition sigs : list sigrow := [\n",
     );
     s.push_str(
@@ -286,12 +293,13 @@ pub fn sig_coq(rows: &[SigRow]) -> String {
             .iter()
             .map(|r| {
                 format!(
-                    "  {{| g_file := {}; g_ty := {}; g_trait := {}; g_name := {}; g_line := {}%N; g_self := {}; g_guards := [{}]; g_ret_lts := [{}]; g_outlives := [{}]; g_q_sized := {}; g_ret := {}; g_borrow := {}; g_static := {} |}}",
+                    "  {{| g_file := {}; g_ty := {}; g_trait := {}; g_name := {}; g_line := {}%N; g_self := {}; g_guards := [{}]; g_ret_lts := [{}]; g_outlives := [{}]; g_q_sized := {}; g_key_lts := [{}]; g_ret := {}; g_borrow := {}; g_static := {} |}}",
                     q(&r.file), q(&r.ty), q(&r.trait_), q(&r.name), r.line, q(&r.self_lt),
                     r.guard_lts.iter().map(|x| q(x)).collect::<Vec<_>>().join("; "),
                     r.ret_lts.iter().map(|x| q(x)).collect::<Vec<_>>().join("; "),
                     r.outlives.iter().map(|(a, b)| format!("({}, {})", q(a), q(b))).collect::<Vec<_>>().join("; "),
                     r.q_sized,
+                    r.key_lts.iter().map(|x| q(x)).collect::<Vec<_>>().join("; "),
                     q(&r.ret), r.returns_borrow, r.has_static_bound
                 )
             })
